@@ -351,6 +351,7 @@ pub fn run(tier: Tier) -> i32 {
             rep.violation(v);
         }
     }
+    super::c02d::run_into(&mut rep, tier);
     // a sample execution, written out
     {
         let (case, _) = cases(tier).into_iter().nth(2).unwrap();
@@ -381,6 +382,9 @@ pub fn run(tier: Tier) -> i32 {
 }
 
 pub fn replay(case: &serde_json::Value) -> Result<(), Violation> {
+    if case["kind"].as_str() == Some("door") {
+        return super::c02d::replay(case);
+    }
     let c: Case = serde_json::from_value(case["case"].clone())
         .map_err(|_| Violation::new("C02:machinery", "bad replay file", json!({})))?;
     let picks: Vec<u16> = case["picks"]
